@@ -48,8 +48,6 @@ Qed.
 Lemma print_N_length n : (1 <= length (print_N n))%nat.
 Proof. destruct (print_N_head n) as (c & t & E & _). rewrite E. cbn. lia. Qed.
 
-Definition in_i64P (z : Z) : Prop := (-9223372036854775808 <= z < 9223372036854775808)%Z.
-
 Lemma parse_int64_print z rest : in_i64P z -> nondigit_head rest ->
   parse_int64 (print_Z z ++ rest) = Some (z, rest).
 Proof.
@@ -71,8 +69,6 @@ Proof.
 Qed.
 
 (* ------------------------------------------------------------------ the PieceSums array *)
-Definition sums_ok (l : list N) : Prop := Forall (fun x => x < 4294967296) l.
-
 Lemma parse_elems_print : forall l fuel rest, l <> [] -> sums_ok l -> (length l <= fuel)%nat ->
   parse_elems fuel (print_elems l ++ 93 :: rest) = Some (l, rest).
 Proof.
@@ -120,8 +116,6 @@ Proof.
 Qed.
 
 (* ------------------------------------------------------------------ the Name string *)
-Definition name_char_ok (c : N) : Prop := c <> 34 /\ c <> 92 /\ 32 <= c /\ c <= 127.
-
 Lemma read_name_print name : forall tail, Forall name_char_ok name -> (exists t, tail = 34 :: t) ->
   read_name (name ++ tail) = Some (name, tail).
 Proof.
@@ -143,13 +137,6 @@ Proof.
 Qed.
 
 (* ------------------------------------------------------------------ the whole document *)
-Record wf_info (i : info) : Prop := {
-  wf_pl : in_i64P (i_pl i);
-  wf_len : in_i64P (i_len i);
-  wf_sums : sums_ok (i_sums i);
-  wf_name : Forall name_char_ok (i_name i);
-  wf_enn : i_enn i = true -> i_sums i = [] }.
-
 Theorem parse_info_print i : wf_info i -> parse_info (serialize_info i) = Some i.
 Proof.
   intros [Hpl Hlen Hsums Hname Henn]. unfold parse_info, serialize_info.
